@@ -463,14 +463,18 @@ fn is_heavy(h: &[HOp]) -> bool {
 }
 
 fn history_list(tier: Tier) -> Vec<Vec<HOp>> {
-    let base = [HOp::Msg, HOp::Run, HOp::Side, HOp::Cursor(0), HOp::Cursor(1), HOp::SelPair, HOp::Ckpt, HOp::Auto, HOp::Other];
+    let base: Vec<HOp> = match tier {
+        // the second cursor key only in thorough (it doubles nothing but the cursor-status cases)
+        Tier::Quick => vec![HOp::Msg, HOp::Run, HOp::Side, HOp::Cursor(0), HOp::SelPair, HOp::Ckpt, HOp::Auto, HOp::Other],
+        Tier::Thorough => vec![HOp::Msg, HOp::Run, HOp::Side, HOp::Cursor(0), HOp::Cursor(1), HOp::SelPair, HOp::Ckpt, HOp::Auto, HOp::Other],
+    };
     let depth = tier.pick(3, 4);
     let mut out: Vec<Vec<HOp>> = Vec::new();
     let mut frontier: Vec<Vec<HOp>> = vec![vec![]];
     for _ in 0..depth {
         let mut next = Vec::new();
         for h in &frontier {
-            for op in &base {
+            for op in base.iter() {
                 let mut t = h.clone();
                 t.push(op.clone());
                 next.push(t);
@@ -502,12 +506,12 @@ fn history_list(tier: Tier) -> Vec<Vec<HOp>> {
         if heavy && tier == Tier::Quick {
             continue;
         }
-        for a in &base {
+        for a in base.iter() {
             let mut h = p.clone();
             h.push(a.clone());
             out.push(h.clone());
             if tier == Tier::Thorough && !heavy {
-                for b in &base {
+                for b in base.iter() {
                     let mut h2 = h.clone();
                     h2.push(b.clone());
                     out.push(h2);
@@ -607,7 +611,36 @@ fn run_watched(report: &Report, args: Vec<String>) {
     }
 }
 
+fn race_jobs(report: &Report) {
+    use crate::race::{job, Pre, Reader, Writer, PRES, READERS_C04, WRITERS};
+    let tier = report.tier();
+    let t = tier.as_str();
+    let cap = report.opts.wall_cap_s;
+    let mut jobs = Vec::new();
+    if tier == Tier::Quick {
+        for r in [Reader::Replay, Reader::CutPoints, Reader::CursorStatus] {
+            jobs.push(job(t, "c04", cap, Pre::OpenTurn, r, Writer::Message, 1));
+        }
+        jobs.push(job(t, "c04", cap, Pre::OpenTurnNoCaches, Reader::CutPoints, Writer::Message, 1));
+    } else {
+        for pre in PRES {
+            for r in READERS_C04 {
+                for w in WRITERS {
+                    jobs.push(job(t, "c04", cap, pre, r, w, 1));
+                }
+            }
+        }
+        jobs.push(job(t, "c04", cap, Pre::OpenTurnNoCaches, Reader::Replay, Writer::Message, 2));
+    }
+    report.set_extra("race_configs", json!(jobs.len()));
+    crate::common::run_workers(report, jobs, if tier == Tier::Quick { 4 } else { 16 }, &crate::race::shim_env());
+}
+
 pub fn run(opts: Opts) -> i32 {
+    if let Some(spec) = opts.extra.iter().find_map(|a| a.strip_prefix("race=")) {
+        let spec = spec.to_string();
+        return crate::race::worker(opts, "C04", "fault_enumeration", &spec);
+    }
     if std::env::var("VC_WORKER").is_ok() {
         return worker(opts);
     }
@@ -632,6 +665,12 @@ pub fn run(opts: Opts) -> i32 {
     }
     let shards = 16usize;
     std::thread::scope(|scope| {
+        // engine S at system-call granularity, alongside the fault enumeration: every read
+        // capability racing ONE concurrent append
+        {
+            let report = &report;
+            scope.spawn(move || race_jobs(report));
+        }
         for s in 0..shards {
             let report = &report;
             scope.spawn(move || {
